@@ -5,6 +5,8 @@ ASSUME ndJsonSerialize(IOEnv.OUT_CROSS, SetToSeq(CrossBaseTable))
 ASSUME ndJsonSerialize(IOEnv.OUT_MUT, SetToSeq({[kind |-> m.kind, why |-> m.why, term |-> m.term, enc |-> Encode(m.term)] : m \in Mutations \cup DtMutations}))
 ASSUME ndJsonSerialize(IOEnv.OUT_VALID, SetToSeq({[kind |-> m.kind, term |-> m.term, fields |-> m.fields, enc |-> Encode(m.term)] : m \in Valid \cup DtValid}))
 ASSUME ndJsonSerialize(IOEnv.OUT_PROPS, SetToSeq(PropCases))
+ASSUME ndJsonSerialize(IOEnv.OUT_BUILDERS, SetToSeq(BuilderCases))
+ASSUME PrintT(<<"builder call sequences", Cardinality(BuilderCases)>>)
 ASSUME PrintT(<<"proplists", Cardinality(PropCases)>>)
 ASSUME PrintT(<<"ranges", Cardinality(SameBaseRanges), Cardinality(HugeStepRanges), "mutations", Cardinality(Mutations \cup DtMutations), "valid", Cardinality(Valid \cup DtValid)>>)
 VARIABLE x
